@@ -83,6 +83,11 @@ def check_exit(col, sess, how, cls, inp):
         col.add("C17", f"C17|terminal_modes_not_restored|{cls}", f"cursor visible: {scr.cursor_visible}; mouse reporting modes still on: {scr.mouse_reporting()} (after {how})", inp)
 
 
+SCALES = ["0.01", "-0.12", "1.5", "0", "100", "-3", "1e308", "nan", "-1e308", "1e-308", "inf", "-inf"]
+LOCATION_NAMES = ["home", "x", "Flughafen München", "Zürich", "Düsseldorf-Lohausen Ä", "東京国際空港 羽田", "Αθήνα Ελευθέριος Βενιζέλος", "ñ" * 9, "é" + "a" * 11 + "é",
+                  "a" * 11 + "é", "a" * 60, "🛬 strip 🛫", "Łódź Lublinek Łł", "e\u0301e\u0301e\u0301e\u0301e\u0301e\u0301e\u0301", "tab\there", "-", "1"]
+
+
 def run_session(col, binpath, rng, tag, scratch, n_events):
     lat, lon = rng.choice([(52.0, 4.0), (0.0, 0.0), (-33.9, 151.2), (89.0, 0.0), (40.0, 179.9)])
     n_air = rng.choice([0, 0, 1, 3, 10, 40])
@@ -95,16 +100,21 @@ def run_session(col, binpath, rng, tag, scratch, n_events):
         if rng.random() < 0.25:
             opts.append(o)
     if rng.random() < 0.3:
-        opts += ["--locations", "(home,%.2f,%.2f)" % (lat + 0.1, lon - 0.1), "(x,0,0)"]
-    if rng.random() < 0.2:
-        opts += ["--scale", rng.choice(["0.01", "1.5", "100"])]
+        # names are free text: long ones, multi-byte characters straddling any byte offset, wide glyphs
+        names = rng.sample(LOCATION_NAMES, 3)
+        opts += ["--locations", "(%s,%.2f,%.2f)" % (names[0], lat + 0.1, lon - 0.1), "(%s,0,0)" % names[1], "(%s,%.3f,%.3f)" % (names[2], lat - 0.2, lon + 0.3)]
+    idx = int(tag.split("#")[1]) if "#" in tag and tag.split("#")[1].isdigit() else 0
+    if idx % 3 == 1:
+        # any number is accepted as a scale: tiny, huge, zero, negative, not-a-number (every third
+        # session, cycling through the list so that a quick run covers all of them)
+        opts += ["--scale=" + SCALES[(idx // 3) % len(SCALES)]]
     if rng.random() < 0.25:
         # a valid airports file (drawn on Map and Coverage), with or without the time-zone filter
         csvp = os.path.join(scratch, f"airports-{tag.replace('#', '-')}.csv")
         with open(csvp, "w") as f:
             f.write("icao,iata,name,city,subd,country,elevation,lat,lon,tz\n")
             for k in range(rng.randint(0, 6)):
-                f.write(f"K{k:03d},A{k:02d},Field {k},Town,ST,US,{100 + k}.0,{lat + rng.uniform(-1, 1):.4f},{lon + rng.uniform(-1, 1):.4f},{rng.choice(['America/Chicago', 'Europe/Amsterdam'])}\n")
+                f.write(f"{rng.choice(['K', 'É', 'Ω', 'KLONGICAOCODE'])}{k:03d},A{k:02d},{rng.choice(['Field', 'Flughafen München', '東京'])} {k},Town,ST,US,{100 + k}.0,{lat + rng.uniform(-1, 1):.4f},{lon + rng.uniform(-1, 1):.4f},{rng.choice(['America/Chicago', 'Europe/Amsterdam'])}\n")
         opts += ["--airports", csvp]
         if rng.random() < 0.5:
             opts += ["--airports-tz-filter", rng.choice(["America/Chicago", "Europe/Amsterdam,America/Chicago", "Nowhere"])]
